@@ -157,7 +157,7 @@ def outside_model(case, r):
     if case.get('input') is None or _has_null(case.get('input')) or any(x is None or _has_null(x) for x in (case.get('inputs') or [])):
         return True
     e = case.get('expr') or ''
-    if _UNORDERED.search(e) or _SELF_UPDATE.search(e):
+    if _UNORDERED.search(e):
         return True
     i, m = r.get('impl', ''), r.get('model') or ''
     if {i, m} == {'V T', 'V F'} and ('function' in e or 'λ' in e):
